@@ -16,7 +16,7 @@
 (***************************************************************************)
 EXTENDS ExprOps
 
-CONSTANTS LeafS, IdxS, BodyVals, PoolSet, MaxIdx, MaxInnerIdx,
+CONSTANTS LeafS, IdxS, BodyVals, PoolSet, MaxIdx, MaxInnerIdx, BuildD2,
           SlotsAr1, SlotsAr2, SlotsNa0, SlotsNa1, SlotsNa2, OuterSlots, InnerSlots
 
 DevNone == {}
@@ -24,7 +24,6 @@ DevBoundIndexSubs == {"BoundIndexSubs"}
 DevDropUnusedIndex == {"DropUnusedIndex"}
 DevDeepAstuple == {"DeepAstuple"}
 NoTerms == {}
-NoNeighbours(t) == {}
 
 \* ======================= pool universe =========================================
 PoolsSmall == { <<"1">>, <<"1", "2">>, <<"2", "2">> }
@@ -36,9 +35,12 @@ Ix1 == { << <<s, p>> >> : s \in IdxS, p \in PoolSet }
 Ix2 == { << <<s[1], p[1]>>, <<s[2], p[2]>> >> :
            s \in { q \in IdxS \X IdxS : q[1] # q[2] }, p \in PoolSet \X PoolSet }
 IxUpTo(k) == { <<>> } \cup (IF k >= 1 THEN Ix1 ELSE {}) \cup (IF k >= 2 THEN Ix2 ELSE {})
-PoolD1 == { Pool(b, ix) : b \in F2, ix \in IxUpTo(MaxIdx) }
+PoolD1 == IF ~ BuildD2 THEN {} ELSE { Pool(b, ix) : b \in F2, ix \in IxUpTo(MaxIdx) }
 PoolInner == { Pool(b, ix) : b \in F2, ix \in IxUpTo(MaxInnerIdx) }
-PoolD2 == { Pool(q, ix) : q \in PoolInner, ix \in Ix1 } \cup
+\* (TLC evaluates constant definitions eagerly: BuildD2 = FALSE keeps the large sets out of
+\* configurations that start from the seeds F2 and grow terms with Nest)
+PoolD2 == IF ~ BuildD2 THEN {} ELSE
+          { Pool(q, ix) : q \in PoolInner, ix \in Ix1 } \cup
           { Pool(Node("g", <<a, q>>, <<>>), ix) : a \in Atoms, q \in PoolInner, ix \in Ix1 }
 PoolInitD1 == PoolD1
 PoolInit   == PoolD1 \cup PoolD2
@@ -49,7 +51,7 @@ PoolPairs == { <<k, r>> : k \in PoolKeys, r \in PoolRepl }
 PoolMaps  == { << <<Leaf(s), Leaf("y")>>, <<Leaf(i), Val("3")>> >> : s \in LeafS, i \in IdxS } \cup
              { << <<Leaf(q[1]), Leaf("y")>>, <<Leaf(q[2]), Val("1")>> >> : q \in { r \in IdxS \X IdxS : r[1] # r[2] } } \cup
              { << <<Leaf("w"), Leaf("y")>> >> }
-PoolCtxs  == { Pool(Hole, ix) : ix \in Ix1 } \cup
+PoolCtxs  == { Pool(Hole, ix) : ix \in IxUpTo(MaxIdx) } \cup
              { Pool(Node("g", <<a, Hole>>, <<>>), ix) : a \in Atoms, ix \in Ix1 }
 
 \* a small configuration whose complete state graph is dumped and walked edge by edge
@@ -63,15 +65,6 @@ PoolGraphInit == { Pool(b, ix) : b \in GraphBodies, ix \in IxUpTo(MaxIdx) } \cup
 PoolGraphPairs == { <<k, r>> : k \in PoolKeys, r \in { Leaf("y"), Val("3") } }
 PoolGraphMaps == { << <<Leaf("x"), Leaf("y")>>, <<Leaf("i"), Val("3")>> >> }
 
-\* neighbours: one argument of the summand, or one pool, changed
-ArgNeighbours(t, alts) ==
-  { [t EXCEPT !.a[pos] = r] : pos \in DOMAIN t.a, r \in alts } \ {t}
-PoolNeighbours(t) ==
-  IF t.k = "pool"
-  THEN { [t EXCEPT !.a = <<u>>] : u \in (IF Body(t).k = "node" THEN ArgNeighbours(Body(t), Atoms) ELSE {}) } \cup
-       ({ [t EXCEPT !.ix[pos] = <<t.ix[pos][1], p>>] : pos \in DOMAIN t.ix, p \in PoolSet } \ {t})
-  ELSE IF t.k = "node" THEN ArgNeighbours(t, Atoms) ELSE {}
-
 \* ======================= class universe ==========================================
 Slots == SlotsAr1 \cup SlotsAr2
 Ar(c) == IF c \in SlotsAr1 THEN 1 ELSE 2
@@ -81,26 +74,31 @@ ClsLeaves == { Leaf(s) : s \in LeafS }
 NodesOver(c, argset) ==
   { Node(c, args, att) : args \in [1..Ar(c) -> argset], att \in [1..Na(c) -> AttrLabels] }
 ClassD1(slots) == UNION { NodesOver(c, ClsLeaves) : c \in slots }
-ClassD2 == UNION { { [o EXCEPT !.a[pos] = inner] :
+ClassD2 == IF ~ BuildD2 THEN {} ELSE UNION { { [o EXCEPT !.a[pos] = inner] :
                        o \in NodesOver(c, ClsLeaves), pos \in 1..Ar(c), inner \in ClassD1(InnerSlots) }
                    : c \in OuterSlots }
 ClassInitD1 == ClassD1(Slots)
+ClassInitD2 == ClassD2
 ClassInit   == ClassD1(Slots) \cup ClassD2
 
 InnerUnary == { c \in InnerSlots : Ar(c) = 1 /\ Na(c) = 0 }
 ClassRepl == { Leaf("w"), Node("h", <<Leaf("w")>>, <<>>) } \cup ClsLeaves \cup
              { Node(c, <<Leaf("w")>>, <<>>) : c \in InnerUnary }
-ClassPairs == { q \in ClsLeaves \X ClassRepl : q[1] # q[2] } \cup
-              { <<Node(c, <<Leaf(s)>>, <<>>), Leaf("w")>> : c \in InnerUnary, s \in LeafS }
+\* subs(old, new): symbol keys only (compound keys follow SymPy's pattern matching, which is
+\* not part of the statement); a nested node as key is exercised with xreplace
+ClassPairs == { q \in ClsLeaves \X ClassRepl : q[1] # q[2] }
 TwoLeaves == { q \in LeafS \X LeafS : q[1] # q[2] }
 ClassMaps == { << <<Leaf(q[1]), Leaf(q[2])>>, <<Leaf(q[2]), Leaf(q[1])>> >> : q \in TwoLeaves } \cup
              { << <<Leaf(q[1]), Leaf("w")>>, <<Leaf(q[2]), Node("h", <<Leaf(q[1])>>, <<>>)>> >> : q \in TwoLeaves } \cup
-             { << <<Leaf("w"), Leaf("x")>> >> }
+             { << <<Leaf("w"), Leaf("x")>> >> } \cup
+             { << <<Node(c, <<Leaf(s)>>, <<>>), Leaf("w")>> >> : c \in InnerUnary, s \in LeafS }
 FirstLeaf == Leaf(CHOOSE s \in LeafS : TRUE)
 ClassCtxs == { Node(c, IF Ar(c) = 1 THEN <<Hole>> ELSE <<Hole, FirstLeaf>>, [j \in 1..Na(c) |-> "a"]) : c \in OuterSlots } \cup
              { Node(c, <<FirstLeaf, Hole>>, [j \in 1..Na(c) |-> "a"]) : c \in OuterSlots \cap SlotsAr2 }
-ClassNeighbours(t) ==
-  IF t.k # "node" THEN {}
-  ELSE ArgNeighbours(t, ClsLeaves \cup {Leaf("w")}) \cup
-       ({ [t EXCEPT !.at[pos] = l] : pos \in DOMAIN t.at, l \in AttrLabels } \ {t})
+ClassVaryArgs == ClsLeaves \cup {Leaf("w")}
+ClassVaryAttrs == AttrLabels
+NoLabels == {}
+NoPools == {}
+PoolVaryPools == PoolSet
+PoolVaryArgs == Atoms
 =============================================================================
